@@ -316,7 +316,11 @@ fn main() {
             eprintln!("P {}", k);
             let mut prng = Rng::new(args.seed.wrapping_mul(0x9E37_79B9_7F4A_7C15) ^ (k as u64).wrapping_mul(0xD1B5_4A32_D192_ED03));
             let pf = props::profile_for(&args.prop, args.cancelable, &mut prng);
-            let prog = Gen::new(&mut prng, &pf, k as u64).generate();
+            let prog = if args.prop == "C09" {
+                Gen::new(&mut prng, &pf, k as u64).generate_overload()
+            } else {
+                Gen::new(&mut prng, &pf, k as u64).generate()
+            };
             for (_, op) in &prog.ops {
                 *ops_by_kind.entry(op.kind_name().to_string()).or_insert(0) += 1;
             }
